@@ -10,7 +10,7 @@ From Verif Require Import Base Link LinkProofs LinkInv16 LinkInvB LinkInvT LinkP
 Theorem cancel_frame :
   forall calls s c,
     memN c (cancelled s) = false ->
-    exists s', step_env calls s (ECancel c) = Some s' /\
+    exists s', step_env fixed calls s (ECancel c) = Some s' /\
                fatal s' = fatal s /\ bclosed s' = bclosed s /\ tbl s' = tbl s /\ ents s' = ents s /\
                evs s' = evs s /\ closures s' = closures s /\ remotes s' = remotes s /\
                cancelled s' = c :: cancelled s.
@@ -23,7 +23,7 @@ Theorem cancelled_waiter_wakes_with_ctx_error :
   forall calls s c i ent,
     memN c (cancelled s) = false -> tget (threads s) (TWaiter i) = Some (WBlocked ent) ->
     c_ctx (nth i calls (mkCall 0 1 false 0)) = c ->
-    exists s', step_env calls s (ECancel c) = Some s' /\
+    exists s', step_env fixed calls s (ECancel c) = Some s' /\
                tget (threads s') (TWaiter i) = Some (WWoke (WCancelled (ECtx c))).
 Proof.
   intros calls s c i ent Hc Ht Hctx. unfold step_env. rewrite Hc. eexists; split; [reflexivity|].
@@ -38,7 +38,7 @@ Theorem other_waiters_untouched :
     c_ctx (nth j calls (mkCall 0 1 false 0)) <> c ->
     memN (c_ctx (nth j calls (mkCall 0 1 false 0))) (cancelled s) = false ->
     le_done (ents s) (c :: cancelled s) ent = false ->
-    exists s', step_env calls s (ECancel c) = Some s' /\
+    exists s', step_env fixed calls s (ECancel c) = Some s' /\
                tget (threads s') (TWaiter j) = Some (WBlocked ent).
 Proof.
   intros calls s c j ent Hc Ht Hne Hnc Hd. unfold step_env. rewrite Hc. eexists; split; [reflexivity|].
